@@ -64,7 +64,7 @@ def main(tier):
              "existence or changed once tracked, never because of u; always-target exactly once in every run that needs it, zero "
              "times otherwise), ifcreate of an existing path fails the command, contents after exit 0",
         assumptions=["-j1, REDO_LOG=0 (the -j2 'exactly once' part is explored by E2 scenario always-j2)", "flat worlds"],
-        budget_s=50 if tier == "quick" else 3000)
+        budget_s=900 if tier == "quick" else 6000)
 
 
 def replay(path):
